@@ -31,3 +31,32 @@ def run(chk, unit="asmjit/core/builder.cpp", rule="R-NEW-SECTION-AT-END"):
                key="sectionend|%s" % x["cn"])
     chk.floor(rule + ":links", n, 1)
     return n
+
+
+def run_identity(chk, rule="R-SECTION-IDENTITY-CHECKED"):
+    """both emitters refuse a Section object that is not the holder's section of that id"""
+    chk.rule(rule, "BaseAssembler::section(Section*) and BaseBuilder::section(Section*): the function compares the attached CodeHolder's section of "
+                   "the parameter's id with the parameter itself (a `==` / `!=` with the parameter on one side) and the mismatch leaves through a "
+                   "failing return: a Section of another CodeHolder whose id happens to be valid here is refused by both, not only by the "
+                   "Assembler")
+    n = 0
+    for unit, pat in (("asmjit/core/assembler.cpp", r"asmjit::BaseAssembler::section$"), ("asmjit/core/builder.cpp", r"asmjit::BaseBuilder::section$")):
+        f = chk.facts(unit, funcs=pat)
+        fns = [g for g in cfg.load_functions(f) if g.file.endswith(unit.split("/")[-1])]
+        chk.need(fns, "%s not found" % pat)
+        fn = fns[0]
+        parm = fn.params[0]["did"]
+        found = None
+        for i, x in fn.ex.items():
+            if x["k"] == "binop" and x["op"] in ("==", "!="):
+                for u, w in ((x["lhs"], x["rhs"]), (x["rhs"], x["lhs"])):
+                    ux = fn.e(fn.strip(u))
+                    if ux is not None and ux["k"] == "ref" and ux.get("did") == parm and "section" in fn.text(w).lower():
+                        found = i
+        n += 1
+        chk.ob(rule, fn.name.replace("asmjit::", ""), found is not None, loc=fn.loc(found) if found is not None else "%s:%d" % (unit, fn.line),
+               detail="%s uses the parameter's section id without ever comparing the holder's section of that id with the parameter: a Section "
+                      "object of another CodeHolder is accepted and the code goes into this holder's section with the same id" %
+                      fn.name.replace("asmjit::", ""), key="sectionidentity|%s" % fn.name.split("::")[-2])
+    chk.floor(rule + ":functions", n, 2)
+    return n
